@@ -683,3 +683,152 @@ def run_beam_history(case, rec):
 
 
 SUBS.append(Sub("beam_history", run_beam_history, gen=beam_histories, quick=60, thorough=500, shards=6))
+
+
+# ------------------------------------------------------------------------------------------
+# PhaseField (two coupled problems, two update flags): after every modification the matrices of BOTH problems and the
+# energies equal those of a new simulation built in the final configuration with the same (u, d) state
+
+
+PF_SPLITS = ["Bourdin", "Amor", "Miehe", "Stress", "He", "Zhang", "AnisotStrain", "AnisotStress"]
+
+
+@st.composite
+def pf_histories(draw):
+    names = ["split", "regu", "Gc", "l0", "E", "v", "thickness", "rotate", "set_coord", "replace_mesh", "read", "read"]
+    ops = []
+    plan = [None] * draw(st.integers(2, 7))
+    for forced in ["read"] + plan:
+        name = forced or draw(st.sampled_from(names))
+        op = dict(op=name)
+        if name == "split":
+            op["value"] = draw(st.sampled_from(PF_SPLITS))
+        elif name == "regu":
+            op["value"] = draw(st.sampled_from(["AT1", "AT2"]))
+        elif name in ("Gc", "l0"):
+            op["value"] = draw(st.integers(1, 12)) / 8.0
+        elif name == "E":
+            op["value"] = draw(st.integers(4, 40)) / 4.0
+        elif name == "v":
+            op["value"] = draw(st.integers(0, 8)) / 20.0
+        elif name == "thickness":
+            op["value"] = draw(st.sampled_from([0.25, 0.5, 2.0]))
+        elif name == "rotate":
+            op["theta"] = draw(st.integers(1, 35)) * 10.0 + 3.0
+        elif name == "set_coord":
+            op["A"] = [[draw(st.sampled_from([0.5, 1.5, 2.0])), 0.0], [draw(st.integers(-2, 2)) / 4.0, 1.0]]
+        elif name == "replace_mesh":
+            op["recipe"] = _recipe(draw)
+        ops.append(op)
+    return dict(kind="phasefield", recipe=_recipe(draw), ops=ops, seed=draw(st.integers(0, 999)),
+                model=dict(E=draw(st.integers(4, 40)) / 4.0, v=draw(st.integers(0, 8)) / 20.0, planeStress=draw(st.booleans()),
+                           thickness=1.0, split=draw(st.sampled_from(PF_SPLITS)), regu=draw(st.sampled_from(["AT1", "AT2"])),
+                           Gc=draw(st.integers(1, 12)) / 8.0, l0=draw(st.integers(1, 12)) / 8.0))
+
+
+def _pf_make(mesh, m):
+    el = Models.Elastic.Isotropic(2, E=float(m["E"]), v=float(m["v"]), planeStress=bool(m["planeStress"]), thickness=float(m["thickness"]))
+    pfm = Models.PhaseField(el, m["split"], m["regu"], float(m["Gc"]), float(m["l0"]), "History")
+    return Simulations.PhaseField(mesh, pfm), el, pfm
+
+
+def _pf_state(simu, seed):
+    """an arbitrary (u, d) state, a function of the node coordinates (so that it can be given to any simulation on the same mesh)"""
+    X = np.asarray(simu.mesh.coord, float)
+    rng = np.random.default_rng(int(seed))
+    G = rng.uniform(-0.05, 0.05, (2, 3))
+    u = (X - X.mean(axis=0)) @ G.T + 0.002 * np.sin(7.0 * X[:, :2] + 1.0)
+    d = 0.05 + 0.8 * (0.5 + 0.5 * np.sin(3.0 * X[:, 0] + 2.0 * X[:, 1] + 0.3 * rng.uniform()))
+    PT = simu.ProblemTypes
+    simu._Set_solutions(PT.elastic, u.ravel().copy())
+    simu._Set_solutions(PT.damage, d.copy())
+    simu.Need_Update()
+
+
+def _pf_read(simu):
+    PT = simu.ProblemTypes
+    out = {}
+    Ku, _, _, Fu = simu.Get_K_C_M_F(PT.elastic)
+    Kd, _, _, Fd = simu.Get_K_C_M_F(PT.damage)
+    out["Ku"], out["Kd"], out["Fd"] = orc.dense(Ku), orc.dense(Kd), orc.dense(Fd).ravel()
+    out["Wdef"] = np.array([float(simu.Result("Wdef"))])
+    out["Psi_Crack"] = np.array([float(simu.Result("Psi_Crack"))])
+    return out
+
+
+def run_pf_history(case, rec):
+    sig = dict(kind="phasefield", elemType=case["recipe"]["elemType"])
+    rec.label("kind:phasefield")
+    mesh = gm.build(case["recipe"])
+    if mesh.Nn > 60:
+        raise Inconclusive("mesh too large for a history")
+    m = dict(case["model"])
+    simu, el, pfm = _pf_make(mesh, m)
+    slot = Slot(mesh)
+    _pf_state(simu, case["seed"])
+    built = inval = False
+    prev = "init"
+    for op in case["ops"]:
+        name = op["op"]
+        tag = f"{prev}->{name}"
+        s2 = dict(sig, op=name, prev=prev)
+        try:
+            if name == "split":
+                pfm.split = op["value"]
+                m["split"] = op["value"]
+            elif name == "regu":
+                pfm.regularization = op["value"]
+                m["regu"] = op["value"]
+            elif name == "Gc":
+                pfm.Gc = op["value"]
+                m["Gc"] = op["value"]
+            elif name == "l0":
+                pfm.l0 = op["value"]
+                m["l0"] = op["value"]
+            elif name == "E":
+                el.E = op["value"]
+                m["E"] = op["value"]
+            elif name == "v":
+                el.v = op["value"]
+                m["v"] = op["value"]
+            elif name == "thickness":
+                el.thickness = op["value"]
+                m["thickness"] = op["value"]
+        except AssertionError:
+            raise Inconclusive("parameter combination rejected by the model")
+        if name == "rotate":
+            simu.mesh.Rotate(op["theta"], (0, 0, 0), (0, 0, 1))
+            slot.coord = slot.coord @ _rodrigues(op["theta"]).T
+        elif name == "set_coord":
+            A3 = np.eye(3)
+            A3[:2, :2] = np.array(op["A"], float)
+            new = slot.coord @ A3.T
+            simu.mesh.coord = new
+            slot.coord = new
+        elif name == "replace_mesh":
+            m2 = gm.build(op["recipe"])
+            if m2.Nn > 60:
+                raise Inconclusive("replacement mesh too large")
+            simu.mesh = m2
+            slot = Slot(m2)
+        if name in ("rotate", "set_coord", "replace_mesh"):
+            _pf_state(simu, case["seed"])  # the state is a function of the coordinates: given again in the final configuration
+        try:
+            fresh, _, _ = _pf_make(gm.rebuild(slot.base, slot.coord), m)
+        except AssertionError:
+            raise Inconclusive("parameter combination rejected by the model")
+        _pf_state(fresh, case["seed"])
+        A, B = _pf_read(simu), _pf_read(fresh)
+        for k in A:
+            rec.require(A[k].shape == B[k].shape, "matrix_shape", f"after {tag}: {k} has shape {A[k].shape}, a fresh simulation {B[k].shape}", **s2)
+            rec.close(A[k] - B[k], max(float(np.abs(B[k]).max()), 1e-12), 1e-10, "stale_" + k,
+                      f"after {tag}: {k} of the phase-field simulation differs from a freshly built one", **s2)
+        if built and name not in ("read",):
+            inval = True
+        built = True
+        rec.label("op:" + name)
+        prev = name
+    rec.nontrivial(inval)
+
+
+SUBS.append(Sub("phasefield_history", run_pf_history, gen=pf_histories, quick=60, thorough=500, shards=6))
